@@ -8,6 +8,7 @@ for f in sys.argv[1:]:
         if m:
             name, chk, rc, nv, rest = m.groups()
             res.setdefault(name, {})[chk] = (rc, nv, rest.strip())
+notes = json.load(open('/verif/seeded/NOTES.json')) if os.path.exists('/verif/seeded/NOTES.json') else {}
 rows = []
 for d in sorted(glob.glob('/verif/seeded/C*-m*')):
     name = os.path.basename(d)
@@ -26,6 +27,8 @@ for d in sorted(glob.glob('/verif/seeded/C*-m*')):
             cells.append(f"{chk}: inconclusive (exit 2)")
         else:
             cells.append(f"{chk}: missed")
+    if name in notes:
+        cells.append('NOTE: ' + notes[name])
     rows.append(f"| {name} | {summ} | {'; '.join(cells) or 'not run'} |")
 out = "# Seeded changes and the checks that catch them\n\n| seeded change | what it changes | result of the quick check(s) |\n|---|---|---|\n" + "\n".join(rows) + "\n"
 open('/verif/seeded/RESULTS.md', 'w').write(out)
